@@ -10,7 +10,7 @@ from .common import FnCtx, SCtx, sctx
 from .c09 import ERR, OPT_KEEP, octx, KNOBS_ALTS
 
 PROP = "C10"
-FLOORS = {"C10.R1": 8, "C10.R2": 6, "C10.R3": 4, "C10.R4": 8, "C10.R5": 2, "C10.R6": 6}
+FLOORS = {"C10.R1": 8, "C10.R2": 6, "C10.R3": 4, "C10.R4": 8, "C10.R5": 2, "C10.R6": 6, "C10.R7": 2}
 META = {
     "explanation": "Every enable/disable call of Optimize passes keywords its callee accepts; each temporary enable_*/disable_* applied "
                    "before the solver steps has its inverse (opposite method, same keyword, argument and guard) after them; every store "
@@ -627,7 +627,29 @@ def _masks(col, rule="C10.R6"):
         col.add(rule, f"MeritFunctionForMatch.{prop}#from-active-flags", ok, psx.loc(psx.fn), f"{prop} reflects the active flags of self.{owner}", "")
 
 
+def _vary_defaults(col, rule="C10.R4"):
+    """a knob that gives only its finite-difference step (or only its limits) still takes the other from the container's defaults:
+    each of the two is completed on its own, whatever the other is"""
+    repo = col.repo
+    sx = sctx(repo, "Vary", "_complete_limits_and_step_from_defaults", public=True)
+    pairs = {"limits": "step", "step": "limits"}
+    n = 0
+    for field, other in pairs.items():
+        st = [e for e in sx.of_kind("store") if e.target == S.sattr(field)]
+        if not st:
+            raise AnalysisError(f"Vary._complete_limits_and_step_from_defaults: no assignment of self.{field} from the defaults (cannot decide)")
+        for e in st:
+            n += 1
+            dep = [c for c in sx.conds(e.nid) if any(x == S.sattr(other) for x in S.subterms(c))]
+            col.add(rule, f"Vary._complete_limits_and_step_from_defaults#{field}-completed-whatever-{other}-is", not dep, sx.loc(e),
+                    f"self.{field} is taken from the container's defaults whenever it is missing, independently of self.{other}",
+                    str([S.show(c)[:60] for c in dep]))
+    col.count("vary_default_completions", n)
+
+
 def check(col: Collector):
+    with col.rule():
+        _vary_defaults(col)
     with col.rule():
         _callsig(col)
     with col.rule():
@@ -640,3 +662,9 @@ def check(col: Collector):
         _stale_copy(col)
     with col.rule():
         _masks(col)
+    # the log rows are what reload() writes back into every knob, disabled ones included: a row holds the container values as they are
+    from . import c15
+    from .common import shared, construct_tag
+    with col.rule():
+        shared(col, "C10.R7", [c15._row_consistency], select=lambda o: construct_tag(o) in ("knobs-read-after-they-were-set", "writes-each-active-knob"),
+               why="a logged knob vector that is the solver's x instead of the containers' values puts a stale value back into a disabled knob")
